@@ -17,7 +17,7 @@ CHECKS = {
               'wrapper against a conformant peer. Non-trivial: raw input of >=3 blocks, msg of >=1 byte, every wrap case; '
               'distinct by hash of (kind,key,iv,data,nonces).'),
         must_hit=['raw:blocks>=3', 'raw:refused-length', 'wrap:(20+len)%16=0', 'wrap:new_nonce-leading-zero-bytes=1',
-                  'wrap:server_nonce-leading-zero-bytes=1', 'msg:len%16=0', 'msg:len%16=15'],
+                  'wrap:server_nonce-leading-zero-bytes=1', 'msg:len%16=0', 'msg:len%16=15', 'concurrent:raw', 'concurrent:msg', 'concurrent:wrap'],
         assumptions=['crypto/aes single-block operations and crypto/sha1 of the Go standard library are correct',
                      'out-of-place use only (no caller of the cipher encrypts in place)',
                      'auth keys are 256 bytes; message-level wrapper messages have >=1 byte (every caller prepends a 32-byte header)'],
@@ -303,7 +303,7 @@ CHECKS = {
         technique='scenario-based property testing (rapid) with tagged requests against a scripted reference server; directed yield-point schedules',
         rule=('case = rpc scenario on a resumed session: callers x tagged requests, answer order/grouping/gzip/errors, optional hold of one sender until another request arrived, GOMAXPROCS. '
               'Non-trivial: >=2 requests answered out of order, a container, a gzip-packed result or a vector result; distinct by hash of the scenario.'),
-        must_hit=['feat:answered-out-of-order', 'feat:container', 'feat:gzip', 'feat:rpc-error', 'concurrent-callers', 'directed:answer-while-sender-in-send-path', 'verdict:ok'] +
+        must_hit=['feat:answered-out-of-order', 'feat:container', 'feat:gzip', 'feat:rpc-error', 'concurrent-callers', 'directed:answer-while-sender-in-send-path', 'feat:nested-container', 'verdict:ok'] +
                  ['feat:%s:%s' % (k, f) for k in ('object', 'bool', 'vecint', 'veclong', 'vecobj') for f in ('plain', 'container', 'gzip')],
         assumptions=['requests are made through MakeRequest / MakeRequestWithHintToDecoder with the hint the generated method of that function passes, followed by the same type assertion',
                      'a stall verdict needs a quiescent deadlocked state seen in two goroutine dumps; anything else after the patience is inconclusive',
